@@ -73,11 +73,15 @@ type Scenario struct {
 	Rules       []RuleSpec         `json:"rules"`
 	// Rounds after the first one: pint keeps running (watch mode), time passes, the
 	// database only grows (Prometheus never back-fills), metrics stop or start.
-	Rounds    []RoundSpec `json:"rounds,omitempty"`
-	Replica   bool        `json:"replica"`
-	FaultKind string      `json:"fault_kind"` // "none", "failover" (primary unavailable, replica healthy), "chaos", "outage"
-	Plan      [][]string  `json:"plan,omitempty"`
-	Rest      []string    `json:"rest,omitempty"`
+	Rounds  []RoundSpec `json:"rounds,omitempty"`
+	Replica bool        `json:"replica"`
+	// OtherServers: further Prometheus servers known to pint (promql/series asks them whether a
+	// missing metric exists elsewhere); they answer slowly, so the fallback time limit can strike
+	OtherServers int        `json:"other_servers,omitempty"`
+	OtherDelayS  int64      `json:"other_delay_s,omitempty"`
+	FaultKind    string     `json:"fault_kind"` // "none", "failover" (primary unavailable, replica healthy), "chaos", "outage"
+	Plan         [][]string `json:"plan,omitempty"`
+	Rest         []string   `json:"rest,omitempty"`
 }
 
 var labelNames = []string{"job", "env"}
@@ -198,7 +202,8 @@ func draw(rt *rapid.T) Scenario {
 		}
 		sc.Rules = append(sc.Rules, r)
 	}
-	if rapid.IntRange(0, 3).Draw(rt, "multiround") == 0 {
+	switch rapid.IntRange(0, 5).Draw(rt, "multiround") {
+	case 0: // a few iterations far apart
 		nrounds := rapid.IntRange(1, detsim.Scale(2, 4)).Draw(rt, "rounds")
 		for r := 0; r < nrounds; r++ {
 			rs := RoundSpec{GapS: rapid.Int64Range(900, 4*3600).Draw(rt, "gap")}
@@ -207,6 +212,25 @@ func draw(rt *rapid.T) Scenario {
 			}
 			sc.Rounds = append(sc.Rounds, rs)
 		}
+	case 1: // `pint watch` with a short interval: answers are re-read again and again while the data changes once
+		nrounds := rapid.IntRange(6, detsim.Scale(9, 12)).Draw(rt, "rounds")
+		changeAt := rapid.IntRange(0, 2).Draw(rt, "changeAt")
+		gap := rapid.Int64Range(45, 230).Draw(rt, "shortgap")
+		for r := 0; r < nrounds; r++ {
+			rs := RoundSpec{GapS: gap + int64(r)}
+			for range sc.Metrics {
+				c := 0
+				if r == changeAt {
+					c = rapid.IntRange(0, 2).Draw(rt, "change")
+				}
+				rs.Change = append(rs.Change, c)
+			}
+			sc.Rounds = append(sc.Rounds, rs)
+		}
+	}
+	if rapid.IntRange(0, 4).Draw(rt, "others") == 0 {
+		sc.OtherServers = rapid.IntRange(1, 2).Draw(rt, "nothers")
+		sc.OtherDelayS = rapid.Int64Range(20, 260).Draw(rt, "otherDelay")
 	}
 	sc.Replica = rapid.Bool().Draw(rt, "replica")
 	switch k := rapid.IntRange(0, 9).Draw(rt, "faultkind"); {
@@ -403,6 +427,7 @@ type connTag struct{ mode string }
 
 type ruleResult struct {
 	round    int
+	recent   []bool // per metric: its data changed less than 15 simulated minutes before this round
 	now      time.Time
 	idx      int
 	problems []checks.Problem
@@ -493,11 +518,33 @@ func run(t *testing.T, sc Scenario, record bool) *detsim.Outcome {
 		s.Start()
 		fg.StartWorkers(reg)
 
-		settings := &checks.PromqlSeriesSettings{LookbackRange: fmt.Sprintf("%dh", sc.LookbackH), LookbackStep: fmt.Sprintf("%dm", sc.StepM)}
+		settings := &checks.PromqlSeriesSettings{LookbackRange: fmt.Sprintf("%dh", sc.LookbackH), LookbackStep: fmt.Sprintf("%dm", sc.StepM), FallbackTimeout: "3m"}
 		if err := settings.Validate(); err != nil {
 			panic(err)
 		}
 		ctx := context.WithValue(context.Background(), checks.SettingsKey(checks.SeriesCheckName), settings)
+		all := []*promapi.FailoverGroup{fg}
+		for o := 0; o < sc.OtherServers; o++ {
+			// healthy but slow servers that do not have any of the metrics
+			host := fmt.Sprintf("other%d:9090", o)
+			osrv := simprom.NewServer(10+o, host, s, simprom.NewEngineBackend(&simprom.MemDB{}))
+			delay := sc.OtherDelayS
+			osrv.FaultFn = func(req *simprom.Request) simprom.Fault {
+				return simprom.Fault{Mode: simprom.ModeOK, DelayNs: delay*int64(time.Second) + int64(req.ID)}
+			}
+			osrv.Start(nw, nil)
+			servers = append(servers, osrv)
+			ofg := promapi.NewFailoverGroup(fmt.Sprintf("other%d", o), "http://"+host, []*promapi.Prometheus{
+				promapi.NewPrometheus(fmt.Sprintf("other%d", o), "http://"+host, "", nil, 10*time.Minute, 4, 100000, nil),
+			}, false, "up", nil, nil, nil)
+			ofg.StartWorkers(reg)
+			defer ofg.Close(reg)
+			all = append(all, ofg)
+		}
+		if sc.OtherServers > 0 {
+			ctx = context.WithValue(ctx, promapi.AllPrometheusServers, all)
+			out.Probes["other_servers_configured"]++
+		}
 		check := checks.NewSeriesCheck(fg)
 
 		on := make([]bool, len(sc.Metrics))
@@ -508,24 +555,36 @@ func run(t *testing.T, sc Scenario, record bool) *detsim.Outcome {
 			}
 		}
 		roundNow := now
+		extendedUntil := now
+		changedAt := make([]time.Time, len(sc.Metrics))
 		for round := 0; round <= len(sc.Rounds) && live; round++ {
 			if round > 0 {
 				rs := sc.Rounds[round-1]
 				time.Sleep(time.Duration(rs.GapS) * time.Second)
+				roundNow = time.Now()
 				for i, c := range rs.Change {
+					was := on[i]
 					switch c {
 					case 1:
 						on[i] = false
 					case 2:
 						on[i] = true
 					}
+					if was != on[i] || (round == 1 && sc.Metrics[i].Shape == shapeIntermittent) {
+						changedAt[i] = roundNow
+					}
 				}
-				prev := roundNow
-				roundNow = time.Now()
-				// what was scraped while pint was idle: the old state until shortly after the previous
-				// round, the new state from then on - nothing is ever written into the past
-				extendDB(backend.DB, on, prev.Add(2*time.Minute), roundNow)
+				// what was scraped while pint was idle - nothing is ever written into the past
+				extendDB(backend.DB, on, extendedUntil, roundNow)
+				extendedUntil = roundNow
 				out.Probes["later_round"]++
+				if rs.GapS < 600 {
+					out.Probes["short_gap_round"]++
+				}
+			}
+			recent := make([]bool, len(sc.Metrics))
+			for i := range recent {
+				recent[i] = !changedAt[i].IsZero() && roundNow.Sub(changedAt[i]) < 15*time.Minute
 			}
 			var wg sync.WaitGroup
 			for w := 0; w < sc.Workers; w++ {
@@ -544,7 +603,7 @@ func run(t *testing.T, sc Scenario, record bool) *detsim.Outcome {
 						}
 						s.Mix(fmt.Sprintf("%d/%s#%d:%s", round, name, i, sb.String()))
 						mu.Lock()
-						results = append(results, ruleResult{round: round, now: roundNow, idx: i, problems: problems})
+						results = append(results, ruleResult{round: round, recent: recent, now: roundNow, idx: i, problems: problems})
 						mu.Unlock()
 					}
 				}()
@@ -677,6 +736,13 @@ func judge(sc *Scenario, entries []discovery.Entry, results []ruleResult, be *si
 				if d.FirstColumn >= sel.start && d.LastColumn <= sel.end+1 {
 					attributed = append(attributed, p)
 				}
+			}
+			var mi int
+			if _, err := fmt.Sscanf(sel.bare, "m%d", &mi); err == nil && mi < len(rr.recent) && rr.recent[mi] {
+				// the data of this metric changed less than 15 minutes ago: answers cached before the
+				// change may legitimately still be in use (harness bound, not pint's constants)
+				out.Probes["skipped_recent_change"]++
+				continue
 			}
 			// (a) no false "missing"
 			vec, err := be.Eval(fmt.Sprintf("count(%s)", sel.text), now)
